@@ -76,6 +76,38 @@ func Interpret(s *Stream, tab *Table) *Interp {
 			return out
 		}
 		mi := tab.Msgs[def.Global]
+
+		// Compressed timestamp headers advance the reference whatever the
+		// message is.
+		compressedTS, compressedUnd := uint32(0), false
+		if r.Compressed {
+			out.Labels["compressed"]++
+			switch {
+			case tainted || !haveRef:
+				out.Undecided++
+				out.Labels["compressed-undecided"]++
+				compressedUnd = true
+			default:
+				off := uint32(r.TimeOffset & 0x1F)
+				if off < lastOff {
+					out.Labels["rollover"]++
+				}
+				delta := (off - lastOff) & 0x1F
+				if uint64(ref)+uint64(delta) >= 0xFFFFFFFF {
+					// advancing past the 32-bit range (year 2126):
+					// not something the text speaks about
+					out.Undecided++
+					out.Labels["compressed-overflow"]++
+					compressedUnd = true
+					tainted = true
+					break
+				}
+				ref += delta
+				lastOff = off
+				compressedTS = ref
+				out.Labels["compressed-decided"]++
+			}
+		}
 		if mi == nil {
 			out.UnknownMsgs[def.Global]++
 			continue
@@ -91,26 +123,12 @@ func Interpret(s *Stream, tab *Table) *Interp {
 				m.Und[i] = true
 			}
 		}
-
 		if r.Compressed {
-			out.Labels["compressed"]++
-			tsf := mi.Fields[253]
-			switch {
-			case tainted || !haveRef:
-				out.Undecided++
-				out.Labels["compressed-undecided"]++
-				if tsf != nil {
+			if tsf := mi.Fields[253]; tsf != nil && tsf.SIndex >= 0 && tsf.SIndex < mi.NFields {
+				if compressedUnd {
 					m.Und[tsf.SIndex] = true
-				}
-			default:
-				off := uint32(r.TimeOffset & 0x1F)
-				if off < lastOff {
-					out.Labels["rollover"]++
-				}
-				ref += (off - lastOff) & 0x1F
-				lastOff = off
-				if tsf != nil {
-					m.Vals[tsf.SIndex] = T(FitEpochUnix+int64(ref), 0)
+				} else {
+					m.Vals[tsf.SIndex] = T(FitEpochUnix+int64(compressedTS), 0)
 				}
 			}
 		}
@@ -134,7 +152,9 @@ func Interpret(s *Stream, tab *Table) *Interp {
 			if und {
 				m.Und[fi.SIndex] = true
 				out.Undecided++
-				if fd.Num == 253 && fi.Kind == KindTimeUTC {
+				if (fd.Num == 253 && fi.Kind == KindTimeUTC) || fi.Kind == KindTimeLocal {
+					// the time reference after this record is not
+					// decided by the text either
 					tainted = true
 				}
 				continue
